@@ -1768,6 +1768,9 @@ func (gen *Generator) GeneratePackage(expressions []Sexp) error {
 	gen.Tail = false
 
 	gen.AddInstruction(AddScopeInstr{Name: pkgName})
+	// count the package scope like every other scope, so that a break or
+	// continue in the package body pops it too.
+	gen.scopes++
 	gen.AddInstruction(PushStackmarkInstr{sym: symPkgName})
 
 	if size > 1 {
@@ -1788,6 +1791,7 @@ func (gen *Generator) GeneratePackage(expressions []Sexp) error {
 	gen.AddInstruction(PopUntilStackmarkInstr{sym: symPkgName})
 	gen.AddInstruction(PopInstr(0)) // remove the stackmark itself now
 	gen.AddInstruction(PopScopeTransferToDataStackInstr{PackageName: pkgName})
+	gen.scopes--
 	return nil
 }
 
